@@ -200,10 +200,66 @@ def build_cases(tier, rnd):
     return cases
 
 
+def float_cases(tier):
+    """Floating point: float64 / float32 arithmetic, comparisons and conversions.  Go's float32 semantics is taken to be "round the double
+    result to single" (sound for + - * / by Figueroa's double-rounding theorem, which z3 does not prove within the budget: stated as an
+    assumption), so for float32 the solver decides the placement of $fround and the operator, not IEEE itself."""
+    C = []
+    T = tv.trace_case
+    F64 = lambda t: ('f64', t)
+    r32 = lambda t: '((_ to_fp 11 53) RNE ((_ to_fp 8 24) RNE %s))' % t
+    w32 = lambda n: '((_ to_fp 11 53) RNE in_%d)' % n       # a float32 input seen as a double
+    ops = [('add', '+', 'fp.add RNE'), ('sub', '-', 'fp.sub RNE'), ('mul', '*', 'fp.mul RNE'), ('quo', '/', 'fp.div RNE')]
+    for name, op, f in ops:
+        C.append(T('f64_%s' % name, '//go:noinline\nfunc f64_%s(x, y float64) float64 { return x %s y }\n' % (name, op), 'VerifOutF64("r", f64_%s(NondetFloat64(0), NondetFloat64(1)))' % name,
+                   lambda inp, f=f: [('true', [('r', [F64('(%s in_0 in_1)' % f)])], 'normal')]))
+        C.append(T('f32_%s' % name, '//go:noinline\nfunc f32_%s(x, y float32) float32 { return x %s y }\n' % (name, op), 'VerifOutF64("r", float64(f32_%s(NondetFloat32(0), NondetFloat32(1))))' % name,
+                   lambda inp, f=f: [('true', [('r', [F64(r32('(%s %s %s)' % (f, w32(0), w32(1))))])], 'normal')]))
+        C.append(T('f32_%s_nested' % name, '//go:noinline\nfunc f32n_%s(x, y, z float32) float32 { return (x %s y) %s z }\n' % (name, op, op), 'VerifOutF64("r", float64(f32n_%s(NondetFloat32(0), NondetFloat32(1), NondetFloat32(2))))' % name,
+                   lambda inp, f=f: [('true', [('r', [F64(r32('(%s %s %s)' % (f, r32('(%s %s %s)' % (f, w32(0), w32(1))), w32(2))))])], 'normal')]))
+    C.append(T('f64_neg_cmp', '//go:noinline\nfunc fcmp(x, y float64) (bool, bool, bool, bool, bool, bool) { return x == y, x != y, x < y, x <= y, x > y, x >= y }\n',
+               'x := NondetFloat64(0)\ny := NondetFloat64(1)\na, b, c, d, e, f := fcmp(x, y)\nprintln("c", a, b, c, d, e, f)\nVerifOutF64("n", -x)',
+               lambda inp: [('true', [('c', ['(fp.eq in_0 in_1)', '(not (fp.eq in_0 in_1))', '(fp.lt in_0 in_1)', '(fp.leq in_0 in_1)', '(fp.gt in_0 in_1)', '(fp.geq in_0 in_1)']), ('n', [F64('(fp.neg in_0)')])], 'normal')]))
+    C.append(T('f64_const_shapes', '//go:noinline\nfunc fshape(x float64) (float64, float64, float64) { return x*0.1 + 2.5, 1 / x, (x - 3) / 4 }\n', 'a, b, c := fshape(NondetFloat64(0))\nVerifOutF64("a", a)\nVerifOutF64("b", b)\nVerifOutF64("c", c)',
+               lambda inp: [('true', [('a', [F64('(fp.add RNE (fp.mul RNE in_0 ((_ to_fp 11 53) RNE 0.1)) ((_ to_fp 11 53) RNE 2.5))')]), ('b', [F64('(fp.div RNE ((_ to_fp 11 53) RNE 1.0) in_0)')]),
+                                      ('c', [F64('(fp.div RNE (fp.sub RNE in_0 ((_ to_fp 11 53) RNE 3.0)) ((_ to_fp 11 53) RNE 4.0))')])], 'normal')]))
+    # integer -> float
+    for t, nd in (('int32', 'Int32'), ('uint32', 'Uint32'), ('int16', 'Int16'), ('uint8', 'Uint8'), ('int', 'Int')):
+        C.append(T('conv_%s_to_float' % t, '//go:noinline\nfunc toF_%s(x %s) (float64, float32) { return float64(x), float32(x) }\n' % (t, t), 'a, b := toF_%s(Nondet%s(0))\nVerifOutF64("a", a)\nVerifOutF64("b", float64(b))' % (t, nd),
+                   lambda inp: [('true', [('a', [F64('((_ to_fp 11 53) RNE (to_real in_0))')]), ('b', [F64('((_ to_fp 11 53) RNE ((_ to_fp 8 24) RNE (to_real in_0)))')])], 'normal')]))
+    for t, nd in (('int64', 'Int64'), ('uint64', 'Uint64')):
+        C.append(T('conv_%s_to_float64' % t, '//go:noinline\nfunc toF_%s(x %s) float64 { return float64(x) }\n' % (t, t), 'VerifOutF64("a", toF_%s(Nondet%s(0)))' % (t, nd),
+                   lambda inp: [('true', [('a', [F64('((_ to_fp 11 53) RNE (to_real in_0))')])], 'normal')]))
+    # float -> integer, for values the target type can hold (anything else is implementation-defined)
+    def toint(t, lo, hi):
+        s_, w = INT_TYPES[t]
+        body = 'x := NondetFloat64(0)\nVerifAssume(x > %s && x < %s)\n' % (lo, hi)
+        if w == 64:
+            out = 'VerifOut%s64("r", to_%s(x))' % ('I' if s_ == 'i' else 'U', t)
+        else:
+            out = 'println("r", to_%s(x))' % t
+        conv = ('f64eq', '(fp.roundToIntegral RTZ in_0)')       # the integer result, seen as a double, is the truncated operand
+        return T('conv_float64_to_%s' % t, '//go:noinline\nfunc to_%s(x float64) %s { return %s(x) }\n' % (t, t, t), body + out, lambda inp: [('true', [('r', [conv])], 'normal')])
+    C.append(toint('int8', '-129', '128'))
+    C.append(toint('uint8', '-1', '256'))
+    C.append(toint('int16', '-32769', '32768'))
+    C.append(toint('int32', '-2147483649', '2147483648'))
+    C.append(toint('uint32', '-1', '4294967296'))
+    C.append(toint('int', '-2147483649', '2147483648'))
+    C.append(toint('int64', '-9223372036854775808', '9223372036854775808'))
+    C.append(toint('uint64', '-1', '18446744073709551616'))
+    C.append(T('conv_float32_float64', '//go:noinline\nfunc f64to32(x float64) float32 { return float32(x) }\n', 'VerifOutF64("r", float64(f64to32(NondetFloat64(0))))', lambda inp: [('true', [('r', [F64(r32('in_0'))])], 'normal')]))
+    return C
+
+
 def main():
     tier = core.tier()
     rnd = random.Random(core.seed())
-    cases = build_cases(tier, rnd)
+    fl = float_cases(tier)
+    if tier == 'quick':
+        # conversions between integers and floats need fp.to_sbv / to_real queries that z3 does not close within the quick budget: thorough tier only
+        fl = [c for c in fl if c.tag.startswith(('f64_', 'f32_')) or c.tag == 'conv_float32_float64']
+    cases = build_cases(tier, rnd) + fl
     only = os.environ.get('VERIF_ONLY')
     if only:
         import re
@@ -214,7 +270,7 @@ def main():
         # through the same $shiftLeft64 / $shiftRightInt64 / $shiftRightUint64 helpers as the cases kept; one of each bounded $div64 pair stays
         skip = re.compile(r'^(shl_int64_by_|assign_sh[lr]_u?int64$|quo_int64_vv_bounded|rem_uint64_vv_bounded)')
         cases = [c for c in cases if not skip.match(c.tag)]
-    heavy = re.compile(r'^(sh[lr]_u?int64_by_|assign_sh[lr]_u?int64$|(quo|rem)_u?int64_vv_bounded|mul_u?int64_vv)')
+    heavy = re.compile(r'^(sh[lr]_u?int64_by_|assign_sh[lr]_u?int64$|(quo|rem)_u?int64_vv_bounded|mul_u?int64_vv|conv_float64_to_|conv_u?int64_to_float|f32_|f64_)')
     return runner.run_property('C06', cases, tier=tier, chunk=int(os.environ.get('VERIF_CHUNK', '24')), heavy=lambda c: bool(heavy.match(c.tag)),
                                title='operator table of the Go specification vs symbolic execution of the emitted JavaScript',
                                bounds={'integers': 'all operand values, full width (no bound)',
